@@ -113,7 +113,7 @@ def extract_printed(out, tag):
     return res
 
 
-def run_tlc(module, cfg, workdir, workers=16, timeout=900, env=None, extra=(), simulate=None,
+def run_tlc(module, cfg, workdir, workers=int(os.environ.get("VERIF_TLC_WORKERS", "8")), timeout=900, env=None, extra=(), simulate=None,
             coverage=False, depth_first=False, heap=None):
     """module: name of a module in /verif/spec (copied, with all other specs, into workdir).
     cfg: text of the configuration."""
@@ -165,7 +165,10 @@ def cfg_text(spec="Spec", constants=None, invariants=(), properties=(), constrai
     if constants:
         lines.append("CONSTANTS")
         for k, v in constants.items():
-            lines.append("  %s = %s" % (k, tla_lit(v)))
+            if isinstance(v, str) and v.startswith("<-"):      # substitution by an operator of the module
+                lines.append("  %s <- %s" % (k, v[2:]))
+            else:
+                lines.append("  %s = %s" % (k, tla_lit(v)))
     for i in invariants:
         lines.append("INVARIANT %s" % i)
     for p in properties:
